@@ -305,6 +305,12 @@ func (e *Enc) verifyFunc(fn *ssa.Function, c *FuncContract) {
 	e.st = st
 	for _, p := range fn.Params {
 		v := e.freshVal(p.Type(), p.Name())
+		if _, isSlice := p.Type().Underlying().(*types.Slice); isSlice && c.Opts["slicebase"] == "0" {
+			// w.l.o.g.: backing-array indices are translation invariant; only sound when no other
+			// slice in scope aliases this parameter's backing array (stated in the contract note)
+			e.assert(Eq(v.L[1], IntLit64(v.L[1].S, 0)))
+			e.assumed = append(e.assumed, e.fnName+": slice parameter "+p.Name()+" starts at index 0 of its backing array (w.l.o.g., opt slicebase=0)")
+		}
 		fr.vals[p] = v
 		for i, l := range v.L {
 			sh := e.shape(p.Type())
@@ -365,9 +371,30 @@ func (e *Enc) verifyFunc(fn *ssa.Function, c *FuncContract) {
 	post.old = fr.entrySt
 	e.bindResults(post, fn.Signature, res)
 	e.st = rst
-	for _, en := range c.Ensures {
-		t := e.evalBool(post, en.E)
-		e.oblige("post", clabel(en), retGuard, t, en.Src, fn.Pos())
+	if c.Opts["split"] == "returns" && len(fr.rets) > 1 {
+		// one obligation per return statement and clause: smaller queries, finer diagnostics
+		for k, r := range fr.rets {
+			ps := e.scopeAt(fr, r.blk, len(r.blk.Instrs)-1, r.st)
+			ps.entry = true
+			ps.old = fr.entrySt
+			var vals []Val
+			for i, v := range r.vals {
+				v.Typ = fn.Signature.Results().At(i).Type()
+				vals = append(vals, v)
+			}
+			e.bindResults(ps, fn.Signature, vals)
+			e.st = r.st
+			for _, en := range c.Ensures {
+				t := e.evalBool(ps, en.E)
+				e.oblige("post", fmt.Sprintf("%s@return%d:%s", clabel(en), k+1, e.srcLabel(r.pos, "")), r.guard, t, en.Src, r.pos)
+			}
+		}
+		e.st = rst
+	} else {
+		for _, en := range c.Ensures {
+			t := e.evalBool(post, en.E)
+			e.oblige("post", clabel(en), retGuard, t, en.Src, fn.Pos())
+		}
 	}
 	for _, cn := range c.Canaries {
 		t := e.evalBool(post, cn.E)
@@ -417,6 +444,7 @@ func (e *Enc) verifyLoopBody(fn *ssa.Function, c *FuncContract, li *LoopInfo) {
 		fr.lets[nm] = e.eval(sc, ex, nil)
 		sc.vars[nm] = fr.lets[nm]
 	}
+	e.assumeRangeIndex(fr, li.header, True)
 	for _, r := range spec.Invariants {
 		e.assert(e.evalBool(sc, r.E))
 	}
